@@ -47,7 +47,7 @@ def req_s(n):
 def case_s():
     def build(n):
         other = st.one_of(
-            st.fixed_dictionaries({"op": st.just("inject"), "s": st.integers(0, n - 1), "k": st.sampled_from(["beacon", "shb"])}),
+            st.fixed_dictionaries({"op": st.just("inject"), "s": st.integers(0, n - 1), "k": st.sampled_from(["beacon", "shb", "dest_shb", "dest_beacon"]), "d": st.integers(1, n - 1)}),
             st.fixed_dictionaries({"op": st.just("adv"), "ms": st.sampled_from([0, 100, 999, 1000, 1001, 2000, 3000])}),
             st.fixed_dictionaries({"op": st.just("mute"), "s": st.integers(0, n - 1)}),
             st.fixed_dictionaries({"op": st.just("unmute"), "s": st.integers(0, n - 1)}),
@@ -59,11 +59,11 @@ def case_s():
             for i, r in enumerate(reqs):
                 out.append(dict(r, s=snd, t="guc", d=dd))
                 if inj and i == 0:
-                    out.append({"op": "inject", "s": snd, "k": inj})
+                    out.append({"op": "inject", "s": snd, "k": inj, "d": dd})
             out += [{"op": "unmute", "s": d}, {"op": "adv", "ms": 1000}]
             return out
         scen = st.tuples(st.integers(0, n - 1), st.integers(1, n - 1), st.lists(req_s(n), min_size=1, max_size=3),
-                         st.sampled_from([None, "beacon", "shb"])).map(scenario)
+                         st.sampled_from([None, "beacon", "shb", "dest_shb", "dest_beacon"])).map(scenario)
         single = st.one_of(req_s(n), req_s(n), other).map(lambda x: [x])
         steps = st.lists(st.one_of(single, single, single, scen), min_size=1, max_size=10).map(lambda ll: [x for l in ll for x in l][:16])
         return st.fixed_dictionaries({
@@ -156,7 +156,14 @@ def run_case(case):
                 if stp["s"] in eth.muted:
                     continue
                 so = {"addr": addr_bytes(b"\x02\x00\x00\x00\x99\x99"), "tst": tst32(clock.now), "lat": pos[stp["s"]][0] + 1000, "lon": pos[stp["s"]][1] - 1000, "pai": 1}
-                if stp["k"] == "beacon":
+                if stp["k"].startswith("dest_"):
+                    # a one-way radio link: a packet of station d reaches s although d (muted or not) may not hear s.  It teaches s the
+                    # position of d but does not answer a pending location-service lookup
+                    d_ = (stp["s"] + stp.get("d", 1)) % n
+                    so = {"addr": addr_bytes(mids[d_]), "tst": tst32(clock.now), "lat": pos[d_][0], "lon": pos[d_][1], "pai": 1}
+                    if (stp["s"], d_) in pending_ls:
+                        labels.add("destination-heard-during-ls")
+                if stp["k"] in ("beacon", "dest_beacon"):
                     r.receive(rc.build_packet("beacon", so=so))
                 else:
                     r.receive(rc.build_packet("shb", so=so, payload=b"\x10\x92\x00\x00zz", nh=rc.CNH_BTPB))   # port 4242: no handler
@@ -266,7 +273,7 @@ def run_case(case):
         if hiport:
             labels.add("port>=32768")
         interesting = labels & {"negative-coordinate", "payload>=1000", "port>=32768", "guc-via-ls", "second-guc-while-ls-pending",
-                                "unrelated-reception-during-ls", "area-excludes-a-receiver"}
+                                "unrelated-reception-during-ls", "destination-heard-during-ls", "area-excludes-a-receiver"}
         return Outcome(vs, labels=sorted(labels), nontrivial=bool(n_exp and interesting))
     finally:
         clock.uninstall()
